@@ -86,6 +86,11 @@ def run_case(cls, key, seed, ctx):
             fam = fam2
         constraint, objective, flip, gs = TL.config_random(rng)
         hostile = True
+        if cls == "rand" and rng.random() < 0.06:
+            gs = int(gen.pick(rng, TL.FINE_GRID_SIZES))     # very fine grids: grid points land next to (not on) hull vertices
+        elif cls == "rand" and rng.random() < 0.08:
+            g, y, s, fam = TL.random_dataset(rng, kmax=3, nmax=450)  # large groups with the default-size grid
+            gs = 1000
     wit = {"groups": g, "labels": y, "scores": s, "constraint": constraint, "objective": objective, "flip": flip, "grid_size": gs}
     dists = {tuple(sorted((s[i], y[i]) for i in range(len(g)) if g[i] == gv)) for gv in set(g)}
     ctx.mark(TL.signature(g, y, s, constraint, objective, flip, gs) + [fam], len(dists) >= 2, sample=wit)
